@@ -41,7 +41,7 @@ ASSUMPTIONS = [
     "order: SQLite BINARY collation = code-point order of the strings (UTF-8 memcmp); checked on every dump",
 ]
 
-SIDS = ["a", "b", "", "a b", "é", "a\0b", "sys/1", "%41", "😀", "a:b", "A", "0", "ab", "a/b"]
+SIDS = ["a", "b", "", "a b", "é", "a\0b", "sys/1", "%41", "😀", "a:b", "A", "0", "ab", "a/b", "a?b", "?x", "b?", "a?b?c"]
 KEYS = ["k", "", "k2", "net:ip", "ü", "k\0", "x:y", "K", "netboot", "p:k"]
 BAD_TEXT = ["\ud800x", "k\udfff", "\udc00"]
 DKEYS = ["", "a", "b", "é", "k\n", "😀", "1", "null", "true", "1.5", "\ud800"]
